@@ -333,6 +333,9 @@ def gen_rust(shapes, with_setters=False):
         warms.append(f'        {i} => crate::h_wire::wire::<{inst}>(args),')
     out.append('pub fn wire_shape(id: usize, args: &[Sx]) -> Sx {\n    match id {\n' + '\n'.join(warms) +
                '\n        _ => tag("bad-shape", vec![]),\n    }\n}\n')
+    dwarms = [w.replace('h_wire::wire::<', 'h_wire::wire_dec::<') for w in warms]
+    out.append('pub fn wiredec_shape(id: usize, args: &[Sx]) -> Sx {\n    match id {\n' + '\n'.join(dwarms) +
+               '\n        _ => tag("bad-shape", vec![]),\n    }\n}\n')
     # setters (only compiled with the generated_setters feature)
     sarms = []
     for i, sh in enumerate(shapes):
@@ -431,7 +434,13 @@ def mutate_value(sh, v, rnd, p=0.35, only_skipped=False):
             if var[0] == 'ftuple':
                 return list(v[:2]) + [(rnd.choice([0, NEGZ]) if int(x) in (0, NEGZ) else x) for x in v[2:]]
             return v
-        return gen_value(sh, rnd) if rnd.random() < p else v
+        if rnd.random() >= p:
+            return v
+        if rnd.random() < 0.6:
+            w = enum_same_variant(sh, v, rnd)
+            if w is not None:
+                return w
+        return gen_value(sh, rnd)
     out = ['s']
     for f, x in zip(sh['fields'], v[1:]):
         if only_skipped:
@@ -441,6 +450,56 @@ def mutate_value(sh, v, rnd, p=0.35, only_skipped=False):
         else:
             out.append(x)
     return out
+
+
+def enum_same_variant(sh, v, rnd):
+    """the same variant with ONE payload component changed (None for a data-less variant): the pair a derived `==`
+    must look inside the variant for"""
+    var = sh['variants'][int(v[1])]
+    n = 0 if var[0] == 'unit' else var[1]
+    if n == 0:
+        return None
+    w = list(v); q = 2 + rnd.randrange(n)
+    if var[0] == 'ftuple':
+        old = int(w[q])
+        for _ in range(20):
+            c = gen_f64(rnd)
+            if c != old: w[q] = c; break
+    else:
+        w[q] = (int(w[q]) + 1 + rnd.randrange(2)) % 4
+    return w
+
+
+def flip_zeros(sh, v):
+    """every float zero replaced by the zero of the other sign: `==` to v under the derived PartialEq, rendered differently
+    (returns v itself when it holds no float zero outside NaN-carrying parts)"""
+    if sh['t'] == 'enum':
+        var = sh['variants'][int(v[1])]
+        if var[0] == 'ftuple':
+            return list(v[:2]) + [({0: NEGZ, NEGZ: 0}.get(int(x), x)) for x in v[2:]]
+        return v
+    out = ['s']
+    for f, x in zip(sh['fields'], v[1:]):
+        k = f['k']; r = f.get('rty', 'u32')
+        if k == 'plain' and r == 'f64': out.append({0: NEGZ, NEGZ: 0}.get(int(x), x))
+        elif k == 'plain' and r == 'enum': out.append(flip_zeros(f['en'], x))
+        elif k == 'plain' and r == 'struct': out.append(flip_zeros(f['inner'], x))
+        elif k == 'recurse': out.append(flip_zeros(f['inner'], x))
+        elif k == 'ropt' and x != 'none': out.append(['some', flip_zeros(f['inner'], x[1])])
+        else: out.append(x)
+    return out
+
+
+def plain_only(sh):
+    """every field is plain (any value type) or a nested / optional nested value of such a type: a diff of this type may be
+    applied to ANY value of the type (C06: "d need not have been computed from x for plain fields")"""
+    if sh['t'] == 'enum':
+        return True
+    for f in sh['fields']:
+        if f['k'] == 'plain': continue
+        if f['k'] in ('recurse', 'ropt') and plain_only(f['inner']): continue
+        return False
+    return True
 
 
 def mutate_inner(f, x, rnd, only_skipped):
